@@ -234,7 +234,7 @@ _TRANS = {
     "C17": (["Gws.Props.TransWindow"], ["TransEquiv.slideWindow_Write_eq", "TransEquiv.BinaryPow_eq"]),
     "C02": (["Gws.Props.TransWindow", "Gws.Props.TransNego", "Gws.Props.TransEmit", "Gws.Props.TransCompress"],
             ["TransEquiv.slideWindow_Write_eq", "TransEquiv.BinaryPow_eq", "TransEquiv.setThreshold_eq", "TransEquiv.emitMessage_eq", "TransEquiv.stripTail_eq", "TransEquiv.compressData_eq",
-             "TransEquiv.doWrite_windowRule_eq", "TransEquiv.broadcast_windowRule_eq"]),
+             "TransEquiv.doWrite_windowRule_eq", "TransEquiv.broadcast_windowRule_eq", "TransEquiv.compressor_window"]),
 }
 # clauses of the properties stated directly of the translated source (Gws/Props/TransProps.lean)
 _TPROPS = {
